@@ -1,0 +1,145 @@
+//go:build verif
+
+package keeper
+
+// Contracts checked by /verif/govc (contract-based deductive verification).
+// Comment-only: with the `verif` tag off this file is not even parsed.
+//
+// Bank layer over ghost state (vocabulary: /verif/contracts/trusted/40_bank.spec):
+//   bal[a]     the coin value stored for address a        balHas[a]  an account record exists
+//   supplyCV   the stored total supply
+// The store + codec primitives (GetAccount, SetAccount, GetSupply, SetSupply, module account
+// lookup) are specified, not proved; every bank operation built from them is proved.
+
+//@ ghost bal map[Bytes]CV
+//@ ghost balHas map[Bytes]bool
+//@ ghost supplyCV CV
+//@ pure modAddr(name Str) Bytes
+//@ pure modKnown(name Str) bool
+
+//@ func (Keeper).GetAccount
+//@   trusted store read + codec: a freshly decoded account object carrying the stored address and coins
+//@   modifies acctCV
+//@   ensures (result != nil) == balHas[bytes(addr)]
+//@   ensures result != nil ==> accAddr(result) == bytes(addr) && acctCV[result] == bal[bytes(addr)]
+//@   ensures forall a Iface {acctCV[a]} :: a != result ==> acctCV[a] == old(acctCV[a])
+//@ func (Keeper).SetAccount
+//@   trusted codec + store write: the record of the object's address now holds the object's coins
+//@   modifies bal, balHas
+//@   ensures bal == old(bal)[accAddr(acc) := acctCV[acc]] && balHas == old(balHas)[accAddr(acc) := true]
+//@ func (Keeper).NewAccountWithAddress
+//@   trusted constructor of an empty base account
+//@   modifies acctCV
+//@   ensures result1 == nil ==> result0 != nil && accAddr(iface(result0)) == bytes(addr) && acctCV[iface(result0)] == cvZero()
+//@   ensures forall a Iface {acctCV[a]} :: a != iface(result0) ==> acctCV[a] == old(acctCV[a])
+//@ func (Keeper).GetModuleAddress
+//@   trusted lookup in the fixed module-permission table
+//@   pure_fn
+//@   ensures (result != nil) == modKnown(moduleName)
+//@   ensures result != nil ==> bytes(result) == modAddr(moduleName)
+//@ func (Keeper).GetModuleAccount
+//@   trusted module account lookup (creates and stores an EMPTY module account when none exists yet)
+//@   modifies acctCV, bal, balHas
+//@   ensures (result != nil) == modKnown(moduleName)
+//@   ensures result != nil ==> accAddr(result) == modAddr(moduleName) && balHas[modAddr(moduleName)] && acctCV[result] == bal[modAddr(moduleName)]
+//@   ensures old(balHas[modAddr(moduleName)]) || !modKnown(moduleName) ==> bal == old(bal) && balHas == old(balHas)
+//@   ensures !old(balHas[modAddr(moduleName)]) && modKnown(moduleName) ==> bal == old(bal)[modAddr(moduleName) := cvZero()] && balHas == old(balHas)[modAddr(moduleName) := true]
+//@   ensures forall a Iface {acctCV[a]} :: a != result ==> acctCV[a] == old(acctCV[a])
+//@   ensures result != nil ==> (forall p Str {macHasPerm(result, p)} :: macHasPerm(result, p) == macHasPermAt(moduleName, p))
+//@ func (Keeper).GetSupply
+//@   trusted store read + codec
+//@   pure_fn
+//@   ensures result != nil ==> supV(result) == supplyCV
+//@ func (Keeper).SetSupply
+//@   trusted codec + store write
+//@   modifies supplyCV
+//@   ensures supplyCV == supV(supply)
+//@ func (Keeper).Logger
+//@   trusted logger accessor
+//@   pure_fn
+//@   ensures result != nil
+//@ pure paramsFM(c Iface) x/auth/types.FeeMultipliers
+//@ func (Keeper).GetParams
+//@   trusted parameter getter: the fee multipliers are a function of the context's state
+//@   pure_fn
+//@   ensures params.FeeMultiplier == paramsFM(ctx)
+
+// ---- C18: balances ----------------------------------------------------------------------------
+//@ func (Keeper).GetCoins
+//@   props C18,C17
+//@   modifies acctCV
+//@   ensures cv(result) == ite(balHas[bytes(addr)], bal[bytes(addr)], cvZero())
+
+//@ func (Keeper).HasCoins
+//@   props C18
+//@   modifies acctCV
+//@   ensures result == cvGTE(ite(balHas[bytes(addr)], bal[bytes(addr)], cvZero()), cv(amt))
+
+// SetCoins: exactly the one record changes (created on first credit), or nothing
+//@ func (Keeper).SetCoins
+//@   props C18,C17
+//@   modifies acctCV, bal, balHas
+//@   ensures [writes-one] result == nil ==> bal == old(bal)[bytes(addr) := cv(amt)] && balHas == old(balHas)[bytes(addr) := true]
+//@   ensures [or-nothing] result != nil ==> bal == old(bal) && balHas == old(balHas)
+//@   ensures [never-negative] result == nil ==> !cvNeg(cv(amt))
+
+// SubtractCoins: the spendable check comes first; on success exactly `amt` leaves `addr`
+//@ func (Keeper).SubtractCoins
+//@   props C18,C17
+//@   modifies acctCV, bal, balHas
+//@   ensures [debits-exactly] result1 == nil ==> bal == old(bal)[bytes(addr) := cvSub(ite(old(balHas[bytes(addr)]), old(bal[bytes(addr)]), cvZero()), cv(amt))] && balHas == old(balHas)[bytes(addr) := true]
+//@   ensures [covered] result1 == nil ==> !cvNeg(cvSub(ite(old(balHas[bytes(addr)]), old(bal[bytes(addr)]), cvZero()), cv(amt)))
+//@   ensures [or-nothing] result1 != nil ==> bal == old(bal) && balHas == old(balHas)
+
+//@ func (Keeper).AddCoins
+//@   props C18,C17
+//@   modifies acctCV, bal, balHas
+//@   ensures [credits-exactly] result1 == nil ==> bal == old(bal)[bytes(addr) := cvAdd(ite(old(balHas[bytes(addr)]), old(bal[bytes(addr)]), cvZero()), cv(amt))] && balHas == old(balHas)[bytes(addr) := true]
+//@   ensures [or-nothing] result1 != nil ==> bal == old(bal) && balHas == old(balHas)
+
+// SendCoins: subtract-then-add of the same amount; a sender that cannot cover it changes nothing.
+// subBal/addBal: the balance map after debiting / crediting one address
+//@ pure curBal(b map[Bytes]CV, h map[Bytes]bool, a Bytes) CV = ite(h[a], b[a], cvZero())
+//@ func (Keeper).SendCoins
+//@   props C18,C17
+//@   modifies acctCV, bal, balHas
+//@   ensures [moves-exactly] result == nil ==> bal == old(bal)[bytes(fromAddr) := cvSub(curBal(old(bal), old(balHas), bytes(fromAddr)), cv(amt))][bytes(toAddr) := cvAdd(curBal(old(bal)[bytes(fromAddr) := cvSub(curBal(old(bal), old(balHas), bytes(fromAddr)), cv(amt))], old(balHas)[bytes(fromAddr) := true], bytes(toAddr)), cv(amt))]
+//@   ensures [sender-covered] result == nil ==> !cvNeg(cvSub(curBal(old(bal), old(balHas), bytes(fromAddr)), cv(amt)))
+//@   ensures [uncovered-changes-nothing] cvNeg(cvSub(curBal(old(bal), old(balHas), bytes(fromAddr)), cv(amt))) ==> result != nil && bal == old(bal) && balHas == old(balHas)
+//@   ensures [supply-untouched] supplyCV == old(supplyCV)
+
+//@ func (Keeper).SendCoinsFromModuleToAccount
+//@   props C18,C17
+//@   modifies acctCV, bal, balHas
+//@   ensures [from-module] result == nil ==> modKnown(senderModule) && !cvNeg(cvSub(curBal(old(bal), old(balHas), modAddr(senderModule)), cv(amt)))
+//@   ensures [moves-exactly] result == nil ==> bal == old(bal)[modAddr(senderModule) := cvSub(curBal(old(bal), old(balHas), modAddr(senderModule)), cv(amt))][bytes(recipientAddr) := cvAdd(curBal(old(bal)[modAddr(senderModule) := cvSub(curBal(old(bal), old(balHas), modAddr(senderModule)), cv(amt))], old(balHas)[modAddr(senderModule) := true], bytes(recipientAddr)), cv(amt))]
+//@   ensures [supply-untouched] supplyCV == old(supplyCV)
+
+// ---- C17: mint and burn move the supply by exactly what they move one balance by -----------------
+//@ func (Keeper).MintCoins
+//@   props C17
+//@   modifies acctCV, bal, balHas, supplyCV
+//@   ensures [mints-exactly] result == nil ==> modKnown(moduleName) && macHasPermAt(moduleName, "minter") && bal == minted(old(bal), old(balHas), moduleName, cv(amt)) && supplyCV == cvAdd(old(supplyCV), cv(amt))
+//@   ensures [no-permission-no-mint] !modKnown(moduleName) ==> result != nil && supplyCV == old(supplyCV) && bal == old(bal)
+//@ pure minted(b map[Bytes]CV, h map[Bytes]bool, m Str, a CV) map[Bytes]CV = b[modAddr(m) := cvAdd(ite(h[modAddr(m)], b[modAddr(m)], cvZero()), a)]
+//@ pure macHasPermAt(m Str, p Str) bool
+
+//@ func (Keeper).BurnCoins
+//@   props C17
+//@   modifies acctCV, bal, balHas, supplyCV
+//@   ensures [burns-exactly] result == nil ==> modKnown(moduleName) && bal == old(bal)[modAddr(moduleName) := cvSub(ite(old(balHas[modAddr(moduleName)]), old(bal[modAddr(moduleName)]), cvZero()), cv(amt))] && supplyCV == cvSub(old(supplyCV), cv(amt))
+//@   ensures [covered] result == nil ==> !cvNeg(cvSub(ite(old(balHas[modAddr(moduleName)]), old(bal[modAddr(moduleName)]), cvZero()), cv(amt)))
+//@   ensures [failed-burn-keeps-supply] result != nil ==> supplyCV == old(supplyCV) && (forall a Bytes :: curBal(bal, balHas, a) == curBal(old(bal), old(balHas), a))
+//@   ensures [needs-permission] result == nil ==> macHasPermAt(moduleName, "burner")
+
+//@ func (Keeper).SendCoinsFromAccountToModule
+//@   props C18,C17,C15
+//@   modifies acctCV, bal, balHas
+//@   ensures [to-module] result == nil ==> modKnown(recipientModule) && !cvNeg(cvSub(curBal(old(bal), old(balHas), bytes(senderAddr)), cv(amt)))
+//@   ensures [moves-exactly] result == nil ==> bal == moved(modBal(old(bal), old(balHas), recipientModule), old(balHas)[modAddr(recipientModule) := true], bytes(senderAddr), modAddr(recipientModule), cv(amt))
+//@   ensures [uncovered-moves-nothing] cvNeg(cvSub(curBal(old(bal), old(balHas), bytes(senderAddr)), cv(amt))) && bytes(senderAddr) != modAddr(recipientModule) ==> result != nil && (forall a Bytes :: curBal(bal, balHas, a) == curBal(old(bal), old(balHas), a))
+//@   ensures [supply-untouched] supplyCV == old(supplyCV)
+// modBal: the balance map once the (possibly new, empty) module account record exists
+//@ pure modBal(b map[Bytes]CV, h map[Bytes]bool, m Str) map[Bytes]CV = ite(h[modAddr(m)], b, b[modAddr(m) := cvZero()])
+// moved: debit `from`, then credit `to`, in that order (so a self-transfer is the identity by the cancellation law)
+//@ pure moved(b map[Bytes]CV, h map[Bytes]bool, from Bytes, to Bytes, a CV) map[Bytes]CV = b[from := cvSub(curBal(b, h, from), a)][to := cvAdd(curBal(b[from := cvSub(curBal(b, h, from), a)], h[from := true], to), a)]
